@@ -1224,6 +1224,61 @@ func checkHeaderHashRaw(r *Run, p *packages.Package, decls map[string]*ast.FuncD
 			} else {
 				why = "the hashed value is not a buffer filled by io.ReadFull"
 			}
+		} else if hsel, ok := ast.Unparen(hashArg).(*ast.SelectorExpr); ok && info.Selections[hsel] != nil && info.Selections[hsel].Kind() == types.FieldVal {
+			// a field of a struct: the buffer is that field's cell — filled by io.ReadFull here, or in the same-package
+			// function whose result the struct is
+			fieldObj := info.Selections[hsel].Obj()
+			filledCell := func(f *ast.FuncDecl) bool {
+				found := false
+				ast.Inspect(f.Body, func(n ast.Node) bool {
+					call, ok := n.(*ast.CallExpr)
+					if !ok || len(call.Args) != 2 {
+						return true
+					}
+					if fn := calleeOf(info, call); fn != nil && funcFullName(fn) == "io.ReadFull" {
+						if as, ok := ast.Unparen(call.Args[1]).(*ast.SelectorExpr); ok {
+							if sl := info.Selections[as]; sl != nil && sl.Obj() == fieldObj {
+								found = true
+							}
+						}
+					}
+					return true
+				})
+				return found
+			}
+			if filledCell(fd) {
+				raw = true
+			} else if bid, ok := ast.Unparen(hsel.X).(*ast.Ident); ok {
+				if rhs, _ := defOf(fd, info.Uses[bid]); rhs != nil {
+					if call, ok := ast.Unparen(rhs).(*ast.CallExpr); ok {
+						if callee := calleeOf(info, call); callee != nil && callee.Pkg() == p.Types {
+							if cd := decls[declKeyOf(callee)]; cd != nil && cd.Body != nil && filledCell(cd) {
+								// and nothing else in the callee overwrites the field after the read
+								writes := 0
+								ast.Inspect(cd.Body, func(n ast.Node) bool {
+									if as, ok := n.(*ast.AssignStmt); ok {
+										for _, l := range as.Lhs {
+											if ls, ok := ast.Unparen(l).(*ast.SelectorExpr); ok {
+												if sl := info.Selections[ls]; sl != nil && sl.Obj() == fieldObj {
+													writes++
+												}
+											}
+										}
+									}
+									return true
+								})
+								raw = writes == 0
+								if !raw {
+									why = "the field " + fieldObj.Name() + " is reassigned in " + callee.Name() + " after it was read from the stream"
+								}
+							}
+						}
+					}
+				}
+			}
+			if !raw && why == "" {
+				why = "the hashed value is " + exprString(r.Fset, hashArg)
+			}
 		} else {
 			why = "the hashed value is " + exprString(r.Fset, hashArg)
 		}
@@ -1387,7 +1442,7 @@ func checkStrictDocumentDecoding(r *Run, p *packages.Package, reach map[*types.F
 				}
 				if strict {
 					r.Pass(rule, construct, dc.Pos(), "the document is decoded and the rest of the input is required to be empty")
-				} else if reason, ok := r.InTableAt(tbl, "c20_decoding_exempt", funcDeclName(fd), info, fd, "decode-once"); ok {
+				} else if reason, ok := r.InTableAt(tbl, "c20_decoding_exempt", funcDeclName(fd), info, fd, "decode-once", viaKey(p, fd)); ok {
 					r.Pass(rule, construct, dc.Pos(), "table: %s", reason)
 				} else {
 					r.Fail(rule, construct, dc.Pos(), "%s decodes one JSON value with Decoder.Decode and never checks that nothing follows it (no second Decode == io.EOF, no More()): bytes appended to the file are ignored, so an extended or concatenated manifest is accepted as intact", funcDeclName(fd))
